@@ -41,7 +41,14 @@ fn flow_one(challenge: PkceCodeChallenge, verifier: PkceCodeVerifier, response_t
     let client = BasicClient::new(ClientId::new("aaa".to_string()))
         .set_auth_uri(AuthUrl::new("https://example.com/auth".to_string()).unwrap())
         .set_token_uri(TokenUrl::new("https://example.com/token".to_string()).unwrap());
-    let mut areq = client.authorize_url(|| CsrfToken::new("s".to_string())).set_pkce_challenge(challenge);
+    // for some response types the builders first receive a challenge / verifier that is then
+    // replaced: the pair that reaches the server is the last one set on each side
+    let twice = response_type.map(|r| r.len() % 2 == 1).unwrap_or(false);
+    let mut areq = client.authorize_url(|| CsrfToken::new("s".to_string()));
+    if twice {
+        areq = areq.set_pkce_challenge(PkceCodeChallenge::from_code_verifier_sha256(&PkceCodeVerifier::new("d".repeat(64))));
+    }
+    let mut areq = areq.set_pkce_challenge(challenge);
     if let Some(rt) = response_type {
         areq = areq.set_response_type(&ResponseType::new(rt.to_string()));
     }
@@ -61,10 +68,11 @@ fn flow_one(challenge: PkceCodeChallenge, verifier: PkceCodeVerifier, response_t
         *cap.borrow_mut() = Some(r);
         Err(FakeError("x".into()))
     };
-    let _ = client
-        .exchange_code(AuthorizationCode::new("code".to_string()))
-        .set_pkce_verifier(verifier)
-        .request(&http);
+    let mut xreq = client.exchange_code(AuthorizationCode::new("code".to_string()));
+    if twice {
+        xreq = xreq.set_pkce_verifier(PkceCodeVerifier::new("e".repeat(64)));
+    }
+    let _ = xreq.set_pkce_verifier(verifier).request(&http);
     let body = cap.borrow().as_ref().map(|r| r.body().clone()).unwrap_or_default();
     let mut ver = String::new();
     for (k, v) in url::form_urlencoded::parse(&body) {
